@@ -43,16 +43,19 @@ Theorem C19_site0_is_msb : forall b s,
 Proof. exact idx_cons. Qed.
 Print Assumptions C19_site0_is_msb.
 
+(* definitional: restates the specification kron_entry (the content is props/C04.v: the sweep equals this dense form) *)
 Theorem C19_site0_is_leftmost_factor : forall T (O : NumOps T) (u : umat (T:=T)) us b r b' r',
   kron_entry O (u :: us) (b :: r) (b' :: r') = cmul O (u_entry u b b') (kron_entry O us r r').
 Proof. exact (@kron_entry_site0_leftmost). Qed.
 Print Assumptions C19_site0_is_leftmost_factor.
 
+(* definitional: unfolds the guard of the model *)
 Theorem C19_oversize_refused : forall n, (max_size < n)%nat -> generate_hilbert_space n = None.
 Proof. exact generate_refuses_oversize. Qed.
 Print Assumptions C19_oversize_refused.
 
-(* reference-basis extraction returns precisely the all-Z rows, in order *)
+(* reference-basis extraction returns precisely the all-Z rows, in order.  Meaningful for length rows = length bases
+   (Python raises for a mask of another length; both sides of the equation truncate there). *)
 Theorem C19_refbasis_exact : forall A (rows : list A) bases,
   extract_refbasis rows bases = refbasis_spec rows bases.
 Proof. exact (@extract_refbasis_exact). Qed.
